@@ -81,10 +81,16 @@ def build(spec):
     for k, ps in enumerate(spec["pipelines"]):
         p = Pipeline(f"orig{k}", Priority[ps["prio"]])
         ops = []
+        shared = []          # one list object reused for every operator (a caller may do that); it is emptied afterwards
         for o in ps["ops"]:
-            op = p.new_operator([ops[j] for j in o["parents"]] or None)
+            if k % 2:
+                shared[:] = [ops[j] for j in o["parents"]]
+                op = p.new_operator(shared if o["parents"] else None)
+            else:
+                op = p.new_operator([ops[j] for j in o["parents"]] or None)
             op.add_segment(Segment(baseline_cpu_seconds=o["cpu"], cpu_scaling=o["law"], memory_gb=o["mem"], storage_read_gb=o["read"]))
             ops.append(op)
+        shared.clear()
         by_tick.setdefault(ps["tick"], []).append(p)
     return by_tick
 
